@@ -74,13 +74,65 @@ type WPod struct {
 	Scheduled    *bool
 }
 
+// quantityForms: render the amounts through the string forms users write (same value, other syntax),
+// and occasionally with sub-unit fractions (which the accessors round up).
+var quantityForms = false
+
+func cpuQuantity(cpu int64) resource.Quantity {
+	if quantityForms {
+		switch (cpu / 7) % 5 {
+		case 0:
+			return resource.MustParse(fmt.Sprintf("%dm", cpu))
+		case 1:
+			if cpu%1000 == 0 {
+				return resource.MustParse(fmt.Sprintf("%d", cpu/1000))
+			}
+			return resource.MustParse(fmt.Sprintf("%d.%03d", cpu/1000, cpu%1000))
+		case 2:
+			return resource.MustParse(fmt.Sprintf("%de-3", cpu))
+		case 3:
+			// a sub-milli fraction: MilliValue rounds up
+			return resource.MustParse(fmt.Sprintf("%d.%03d4", cpu/1000, cpu%1000))
+		}
+	}
+	return *resource.NewMilliQuantity(cpu, resource.DecimalSI)
+}
+
+func memQuantity(mem int64) resource.Quantity {
+	if quantityForms {
+		switch (mem / 3) % 6 {
+		case 0:
+			if mem%(1<<30) == 0 {
+				return resource.MustParse(fmt.Sprintf("%dGi", mem>>30))
+			}
+			if mem%(1<<20) == 0 {
+				return resource.MustParse(fmt.Sprintf("%dMi", mem>>20))
+			}
+		case 1:
+			if mem%1000 == 0 {
+				return resource.MustParse(fmt.Sprintf("%dk", mem/1000))
+			}
+		case 2:
+			return resource.MustParse(fmt.Sprintf("%d", mem))
+		case 3:
+			// half a byte more: Value() rounds up
+			return resource.MustParse(fmt.Sprintf("%d.5", mem))
+		case 4:
+			if mem%(1<<29) == 0 && (mem>>29)%2 == 1 {
+				return resource.MustParse(fmt.Sprintf("%d.5Gi", mem>>30))
+			}
+		}
+	}
+	return *resource.NewQuantity(mem, resource.BinarySI)
+}
+
 func resList(cpu, mem int64) v1.ResourceList {
 	rl := v1.ResourceList{}
 	if cpu != 0 {
-		rl[v1.ResourceCPU] = *resource.NewMilliQuantity(cpu, resource.DecimalSI)
+		rl[v1.ResourceCPU] = cpuQuantity(cpu)
 	}
 	if mem != 0 {
-		rl[v1.ResourceMemory] = *resource.NewQuantity(mem, resource.BinarySI)
+		rl[v1.ResourceMemory] = memQuantity(mem)
 	}
 	return rl
 }
